@@ -59,8 +59,9 @@ func (o *tcpSYNCmdOpts) startScan(ctx context.Context, args []string) (err error
 		withTCPScanName(scanName),
 		withTCPPacketFillerOptions(tcp.WithSYN()),
 		withTCPPacketFilterFunc(func(pkt *layers.TCP) bool {
-			// port is open
-			return pkt.SYN && pkt.ACK
+			// port is open: exactly SYN+ACK, the BPF filter checks tcp[13] only,
+			// the NS flag lives in the previous byte
+			return pkt.SYN && pkt.ACK && !pkt.NS
 		}),
 		withTCPPacketFlags(tcp.EmptyFlags),
 	)
